@@ -1,105 +1,43 @@
-(* C16: node phases = longest expected-delay path over non-skipped connections; un-skipped cycles are reported *)
-From Coq Require Import List Arith ZArith Bool Lia.
+(* C16 model, part 1: node phases.  rex/node.py: BaseNode.phase / BaseNode.phase_output / Connection.phase.
+   Times are integer ticks (DESIGN 1.1); node names are integers.  Proofs are in PhaseLaws.v. *)
+From Coq Require Import List ZArith Bool.
 Import ListNotations.
 Open Scope Z_scope.
 
-Record inp := { i_out : nat; i_delay : Z; i_skip : bool }.
-Section G.
-Variable inputs : nat -> list inp.     (* incoming connections of a node *)
-Variable ndelay : nat -> Z.            (* expected computation delay of a node *)
+(* an incoming connection as seen by the phase computation: sender, expected communication delay, skip flag *)
+Record inp := { i_out : Z; i_delay : Z; i_skip : bool }.
 
-(* BaseNode.phase / Connection.phase, recursion depth made explicit: None = RecursionError *)
-Fixpoint phase (fuel : nat) (n : nat) : option Z :=
+(* BaseNode.phase_output:  self.phase + self.delay *)
+Definition phase_output (phase delay : Z) : Z := phase + delay.
+(* Connection.phase:  self.output_node.phase_output + self.delay *)
+Definition conn_phase (phase_out delay : Z) : Z := phase_out + delay.
+(* BaseNode.phase:  max([0.0] + [i.phase * 1.00 for i in self.inputs.values() if not i.skip]);
+   an entry is (skip, value of i.phase), None = evaluating i.phase raised (RecursionError); skipped entries are never evaluated *)
+Definition phase_combine (l : list (bool * option Z)) : option Z :=
+  fold_right (fun (sp : bool * option Z) (acc : option Z) => if fst sp then acc else
+                match acc, snd sp with Some a, Some p => Some (Z.max a p) | _, _ => None end) (Some 0) l.
+
+Section G.
+Variable inputs : Z -> list inp.     (* incoming connections of a node, in dict order *)
+Variable ndelay : Z -> Z.            (* expected computation delay of a node *)
+
+(* the mutual recursion phase -> Connection.phase -> phase_output -> phase with its depth made explicit:
+   None = the recursion did not bottom out within `fuel` levels (Python: RecursionError, re-raised as "Algebraic loop detected") *)
+Fixpoint phase (fuel : nat) (n : Z) : option Z :=
   match fuel with O => None
-  | S fuel =>
-      fold_right (fun i acc =>
-        if i_skip i then acc else
-        match acc, phase fuel (i_out i) with
-        | Some a, Some p => Some (Z.max a (p + ndelay (i_out i) + i_delay i))
-        | _, _ => None end) (Some 0) (inputs n)
+  | S fuel => phase_combine (map (fun i => (i_skip i,
+                 option_map (fun p => conn_phase (phase_output p (ndelay (i_out i))) (i_delay i)) (phase fuel (i_out i)))) (inputs n))
   end.
 
-(* weighted non-skip paths ending at n *)
-Inductive path : nat -> Z -> Prop :=
+(* weighted paths over non-skipped connections ending in n: the reference notion the phase is compared to *)
+Inductive path : Z -> Z -> Prop :=
 | p_nil n : path n 0
 | p_cons n i w : In i (inputs n) -> i_skip i = false -> path (i_out i) w -> path n (w + ndelay (i_out i) + i_delay i).
 
-Definition fold_spec (fuel : nat) (l : list inp) (r : option Z) : Prop :=
-  match r with
-  | Some p => 0 <= p /\ (forall i, In i l -> i_skip i = false -> exists q, phase fuel (i_out i) = Some q /\ q + ndelay (i_out i) + i_delay i <= p) /\
-              (p = 0 \/ exists i q, In i l /\ i_skip i = false /\ phase fuel (i_out i) = Some q /\ p = q + ndelay (i_out i) + i_delay i)
-  | None => exists i, In i l /\ i_skip i = false /\ phase fuel (i_out i) = None
-  end.
-
-Lemma fold_ok fuel l :
-  fold_spec fuel l (fold_right (fun i acc =>
-        if i_skip i then acc else
-        match acc, phase fuel (i_out i) with
-        | Some a, Some p => Some (Z.max a (p + ndelay (i_out i) + i_delay i))
-        | _, _ => None end) (Some 0) l).
-Proof.
-  induction l as [|i l IH]; simpl.
-  - split; [lia|]. split; [intros ? []|now left].
-  - destruct (i_skip i) eqn:Es.
-    + destruct (fold_right _ _ l) as [a|]; simpl in *.
-      * destruct IH as (H0 & H1 & H2). split; [exact H0|]. split.
-        -- intros j [<-|Hj] Hs; [congruence|]. apply H1; auto.
-        -- destruct H2 as [->|(j & q & Hj & Hs & Hp & ->)]; [now left|right; exists j, q; auto].
-      * destruct IH as (j & Hj & Hs & Hp). exists j. auto.
-    + destruct (fold_right _ _ l) as [a|]; simpl in *.
-      * destruct IH as (H0 & H1 & H2). destruct (phase fuel (i_out i)) as [p|] eqn:Ep; simpl.
-        -- split; [lia|]. split.
-           ++ intros j [<-|Hj] Hs; [exists p; split; [exact Ep|lia]|].
-              destruct (H1 j Hj Hs) as (q & Hq & Hle). exists q. split; [exact Hq|lia].
-           ++ destruct (Z.max_spec a (p + ndelay (i_out i) + i_delay i)) as [[_ ->]|[_ ->]].
-              ** right. exists i, p. auto.
-              ** destruct H2 as [->|(j & q & Hj & Hs & Hp & ->)]; [now left|right; exists j, q; auto].
-        -- exists i. auto.
-      * destruct IH as (j & Hj & Hs & Hp). destruct (phase fuel (i_out i)); exists j; auto.
-Qed.
-
-(* (a) every non-skip path into n weighs at most phase n; (b) phase n is attained by a path *)
-Theorem phase_longest_path fuel : forall n p, phase fuel n = Some p ->
-  (forall w, path n w -> w <= p) /\ path n p.
-Proof.
-  induction fuel as [|fuel IH]; intros n p H; [discriminate|].
-  simpl in H. pose proof (fold_ok fuel (inputs n)) as F. rewrite H in F. destruct F as (H0 & H1 & H2).
-  split.
-  - intros w Hw. inversion Hw; subst; [exact H0|].
-    destruct (H1 i H3 H4) as (q & Hq & Hle). destruct (IH _ _ Hq) as [Hub _]. specialize (Hub _ H5). lia.
-  - destruct H2 as [->|(i & q & Hi & Hs & Hq & ->)]; [constructor|].
-    destruct (IH _ _ Hq) as [_ Hp]. econstructor; eauto.
-Qed.
-
-(* an un-skipped cycle reachable against the arrows makes the computation fail whatever the depth *)
-Inductive back : nat -> nat -> Prop :=      (* back n m: m is a non-skip predecessor of n, transitively (>= 1 step) *)
+(* back n m: m is a non-skip predecessor of n, transitively (at least one connection) *)
+Inductive back : Z -> Z -> Prop :=
 | b_one n i : In i (inputs n) -> i_skip i = false -> back n (i_out i)
 | b_more n i m : In i (inputs n) -> i_skip i = false -> back (i_out i) m -> back n m.
-Definition loops (n : nat) : Prop := back n n \/ exists m, back n m /\ back m m.
-
-Lemma back_first n m : back n m ->
-  exists i, In i (inputs n) /\ i_skip i = false /\ (i_out i = m \/ back (i_out i) m).
-Proof. intros H. destruct H; exists i; auto. Qed.
-
-Lemma loops_pred n : loops n -> exists i, In i (inputs n) /\ i_skip i = false /\ loops (i_out i).
-Proof.
-  intros [H|(m & Hm & Hmm)].
-  - destruct (back_first _ _ H) as (i & Hi & Hs & [He|Hb]); exists i; repeat split; auto.
-    + left. rewrite He. exact H.
-    + right. exists n. auto.
-  - destruct (back_first _ _ Hm) as (i & Hi & Hs & [He|Hb]); exists i; repeat split; auto.
-    + left. rewrite He. exact Hmm.
-    + right. exists m. auto.
-Qed.
-
-Theorem phase_loop_detected fuel : forall n, loops n -> phase fuel n = None.
-Proof.
-  induction fuel as [|fuel IH]; intros n Hl; [reflexivity|].
-  destruct (loops_pred n Hl) as (i & Hi & Hs & Hli).
-  simpl. pose proof (fold_ok fuel (inputs n)) as F.
-  destruct (fold_right _ _ (inputs n)) as [p|]; [|reflexivity].
-  destruct F as (_ & H1 & _). destruct (H1 i Hi Hs) as (q & Hq & _). rewrite (IH _ Hli) in Hq. discriminate.
-Qed.
+(* an un-skipped cycle lies on or upstream of n *)
+Definition loops (n : Z) : Prop := back n n \/ exists m, back n m /\ back m m.
 End G.
-Print Assumptions phase_longest_path.
-Print Assumptions phase_loop_detected.
